@@ -651,6 +651,11 @@ func runC04(c *Ctx) {
 	}
 
 	ruleNoPartialLine(c) // one reply per command LINE: the buffered beginning of an over-long line is never dispatched (it would be answered, and the line again with the closing 500)
+	rulePositiveAfterCallback(c)
+	R.Rule("R-bdat-chunk-never-commands", "E2 path counting", "a BDAT command gets its one reply and nothing else: every path through handleBdat that knows the size consumes the chunk, so its octets are never answered as commands of their own", 1)
+	if bi := bdatAnchors(c); bi != nil && bi.parse != nil {
+		obBdatConsumes(c, bi)
+	}
 	R.Rule("R-binarymime-per-mail", "E2 never-before", "the BINARYMIME refusal of DATA reports this transaction's MAIL: handleMail clears the flag before it can be set and before the backend is asked", 1)
 	ruleBinarymimePerMail(c)
 	R.Rule("R-write-deadline-owner", "who-may-call + E3 guard facts", "the server arms a write deadline on the connection only where WriteTimeout is set (writeResponse re-arms it for every reply); nothing arms both deadlines at once: a read deadline must never expire a reply", 3)
